@@ -32,6 +32,15 @@ def run(ctx):
   def add_get(n, u, i, as_bits=False):
     x = Bits(n, u)
     t = res_bits(lambda: x[mk_idx(i, as_bits)])
+    if t.startswith('Ok'):
+      # the value read must be a NEW object: updating either one in place must not show in the other
+      y = x[mk_idx(i, as_bits)]
+      if y is x:
+        ctx.violation(f'C05:getitem-alias:{i[0]}', f'Bits{n}({u})[{i}] returns the object itself, not a copy: an in-place update of one changes the other', {'n': n, 'u': u, 'idx': i})
+      else:
+        before = int(x._uint); y @= (int(y._uint) ^ 1)
+        if int(x._uint) != before:
+          ctx.violation(f'C05:getitem-alias:{i[0]}', f'updating the value read from Bits{n}({u})[{i}] in place changed the source', {'n': n, 'u': u, 'idx': i})
     g_cases.append(f'({n}, {zlit(u)}, {idx_term(i)}, {t})'); g_meta.append(f'Bits{n}({u})[{i}]')
     ctx.count(('get', n, u, i), True, cls='get:' + i[0] + (':err' if t.startswith('Err') else ':ok'))
 
@@ -58,7 +67,7 @@ def run(ctx):
   bad = ctx.coq_bad_indices('get', 'Base.Prelude Bits.BitsSpec', '', 'Z * Z * pyidx * res (Z * Z)', g_cases,
                             "let '(n, u, i, e) := c in res_eqb pair_eqb (spec_getitem n u i) e")
   for i in bad[:15]:
-    exp = ctx.coq_eval('gexp', 'Base.Prelude Bits.BitsSpec', '', ["let '(n, u, i, e) := " + g_cases[i] + " in spec_getitem n u i"])
+    exp = ctx.coq_eval('gexp', 'Base.Prelude Bits.BitsSpec', '', ["(fun c : Z * Z * pyidx * res (Z * Z) => let '(n, u, i, e) := c in spec_getitem n u i) " + g_cases[i]])
     ctx.violation(f'C05:getitem:{g_meta[i]}', f'{g_meta[i]}: implementation gives {g_cases[i].rsplit(", ", 1)[-1][:-1][:100]}, spec gives {exp[0][:100]}',
                   {'case': g_meta[i], 'coq_case': g_cases[i], 'spec': exp[0]})
   ctx.sample({'kind': 'getitem', 'case': g_meta[7], 'coq': g_cases[7]})
@@ -115,7 +124,7 @@ def run(ctx):
   bad = ctx.coq_bad_indices('set', 'Base.Prelude Bits.BitsSpec', '', 'Z * Z * pyidx * operand * res Z', s_cases,
                             "let '(n, u, i, v, e) := c in res_eqb Z.eqb (bind (spec_setitem n u 0 i v) (fun r => Ok (snd (fst r)))) e")
   for i in bad[:15]:
-    exp = ctx.coq_eval('sexp', 'Base.Prelude Bits.BitsSpec', '', ["let '(n, u, i, v, e) := " + s_cases[i] + " in bind (spec_setitem n u 0 i v) (fun r => Ok (snd (fst r)))"])
+    exp = ctx.coq_eval('sexp', 'Base.Prelude Bits.BitsSpec', '', ["(fun c : Z * Z * pyidx * operand * res Z => let '(n, u, i, v, e) := c in bind (spec_setitem n u 0 i v) (fun r => Ok (snd (fst r)))) " + s_cases[i]])
     ctx.violation(f'C05:setitem:{s_meta[i]}', f'{s_meta[i]}: implementation gives {s_cases[i].rsplit(", ", 1)[-1][:-1][:100]}, spec gives {exp[0][:100]}',
                   {'case': s_meta[i], 'coq_case': s_cases[i], 'spec': exp[0]})
   ctx.sample({'kind': 'setitem', 'case': s_meta[11], 'coq': s_cases[11]})
@@ -172,7 +181,7 @@ Definition runh (k : hk) : res (Z * Z) :=
   bad = ctx.coq_bad_indices('h', 'Base.Prelude Bits.BitsSpec Bits.Helpers', defs, 'hk * res (Z * Z)', h_cases,
                             "res_eqb pair_eqb (runh (fst c)) (snd c)", shard=250)
   for i in bad[:15]:
-    exp = ctx.coq_eval('hexp', 'Base.Prelude Bits.BitsSpec Bits.Helpers', defs, ["runh (fst " + h_cases[i] + ")"])
+    exp = ctx.coq_eval('hexp', 'Base.Prelude Bits.BitsSpec Bits.Helpers', defs, ["runh (fst ((" + h_cases[i] + ") : hk * res (Z * Z)))"])
     ctx.violation(f'C05:helpers:{h_meta[i]}', f'{h_meta[i]}: implementation gives {h_cases[i].rsplit(", ", 1)[-1][:-1][:100]}, model gives {exp[0][:100]}',
                   {'case': h_meta[i], 'coq_case': h_cases[i], 'model': exp[0]})
   ctx.sample({'kind': 'helpers', 'case': h_meta[0], 'coq': h_cases[0]})
